@@ -229,6 +229,48 @@ PROPS = {
         "assumptions": ["sources, vector-to-stream, stream-to-PDU, text formatter and FFT framing are covered by C16/C08 "
                         "self-checks, not yet by a Lean spec"],
     },
+    "C11": {
+        "required_theorems": ["c11_fir_any_chunking", "c11_fir_sliding", "c11_fir_eq_conv", "c11_kernels_agree",
+                              "c11_fft_size", "c11_ola_eq_conv", "c11_fft_eq_fir_delayed", "c11_iir_recurrence",
+                              "c11_single_pole", "c11_lowpass_hamming", "c11_lowpass_blackman", "c11_hilbert_taps",
+                              "c11_fm_identities"],
+        "runs": [
+            {"sub": "blocks", "quick": ["--seed", "{seed}", "--set", "dsp", "--cases", 900, "--steps", 30, "--tag-heavy", 1],
+             "thorough": ["--seed", "{seed}", "--set", "dsp", "--cases", 40000, "--steps", 60, "--tag-heavy", 1],
+             "timeout": 20000},
+            {"sub": "dsp", "quick": ["--seed", "{seed}", "--cases", 150],
+             "thorough": ["--seed", "{seed}", "--cases", 6000], "timeout": 20000},
+            {"sub": "dsp", "variant": "avx", "quick": ["--seed", "{seed}", "--cases", 150],
+             "thorough": ["--seed", "{seed}", "--cases", 6000], "timeout": 20000},
+            {"sub": "blocks", "variant": "avx",
+             "quick": ["--seed", "{seed}", "--set", "dsp", "--cases", 300, "--steps", 30],
+             "thorough": ["--seed", "{seed}", "--set", "dsp", "--cases", 10000, "--steps", 60], "timeout": 20000},
+            {"sub": "dsp", "variant": "simd", "tiers": ["thorough"],
+             "thorough": ["--seed", "{seed}", "--cases", 3000], "timeout": 20000},
+        ],
+        "rule": "model-compared, bit exact in Float32: FirFilter<f32> (1..40 taps, deci 1..8), FirFilter<Complex>, Hilbert "
+                "(3..41 taps, the library's own taps), SinglePoleIirFilter, FastFM, FftFilter around an exact integer engine "
+                "(1..40 taps): random drip-feed schedules with tags through one-page streams; Fir::filter_float (0..200 taps, "
+                "integer/fractional/special values incl. NaN, inf, -0; the kernel this build compiles: scalar, AVX, portable "
+                "simd), Fir::filter_n, IirFilter (1..8 taps), calc_fft_size for 21 tap counts. Self-checking against an f64 "
+                "reference: FirFilter and FftFilter/FftFilterFloat with the rustfft engine (1..200 taps, deci 1..8, "
+                "random/impulse/step/sinusoid/integer inputs of 0..3000 samples) = sliding dot product / linear convolution "
+                "with zero pre-history within rounding; rustfft engine = cyclic convolution; low_pass symmetric with unit DC "
+                "gain and hilbert() antisymmetric for Hamming/Blackman/Blackman-Harris; quadrature demod = gain x phase step. "
+                "All of it again in a build with the AVX code path (and, thorough, the nightly portable-simd path). "
+                "distinct = distinct request.",
+        "trusted_base": GLOBAL_TB + [
+            "Lean's Float32 (IEEE binary32 + and *) for the bit-exact correspondence; no theorem depends on float values",
+            "exact-arithmetic theorems are over an arbitrary commutative ring / the reals; the distance between float and exact "
+            "results (rounding) is bounded only by the harness's f64 reference comparison",
+            "the FFT engine (rustfft crate) computes the cyclic convolution with the taps: assumed by c11_ola_eq_conv, "
+            "checked on integer data to 0.02 by '!dsp engine' lines",
+            "FftFilter's batching loop (buffering across work() calls) = olaRun: by correspondence ('fftx' block lines), not proved",
+            "atan2(y, x) = arg(x + iy) (libm); sin, cos of the float code = the real functions up to rounding",
+            "Mathlib (real analysis, big operators) for the design/identity theorems",
+        ],
+        "assumptions": ["fft_stream.rs (plain FFT framing) is covered by C08 self-checks only"],
+    },
     "C12": {
         "required_theorems": ["c12_sync_same_index", "c12_sync_any_chunking", "c12_contract_sync", "c12_skip", "c12_delay"],
         "runs": [
@@ -539,6 +581,23 @@ MANIFEST_TEXT = {
         "design_ref": "DESIGN.md section 2, C10",
         "note": "Float sample functions are single expressions evaluated by Lean Float32 in the driver (trusted, not proved).",
         "technique": "Lean 4 proof model = independent spec + differential correspondence on boundary inputs",
+    },
+    "C11": {
+        "text": "Lean 4 theorems over a model of the kernels (Fir, FirFilter::work, AVX/portable-simd reductions, Hilbert, "
+                "IirFilter, SinglePoleIir, FastFM, calc_fft_size, FftFilter's overlap-add) written over an abstract arithmetic: "
+                "for ANY arithmetic and EVERY chunking FirFilter output m is Fir::filter at offset m*deci; over any commutative "
+                "ring that is the sliding dot product = linear convolution at m*deci+ntaps-1, the SIMD reductions equal the "
+                "scalar fold, overlap-add around a cyclic convolution of size calc_fft_size(ntaps) (a power of two >= 2*ntaps) "
+                "is the linear convolution with zero pre-history, hence FFT output = FIR output delayed by ntaps-1; IIR "
+                "recurrences and closed form; over the reals low_pass is symmetric with unit DC gain for Hamming, Blackman and "
+                "Blackman-Harris windows, hilbert() is antisymmetric, quadrature demod = gain x phase advance, FastFM identity. "
+                "The same model instantiated with Float32 is compared bit for bit with the real blocks and kernels in the "
+                "default, AVX and portable-simd builds; float results are compared with an f64 reference within rounding bounds.",
+        "design_ref": "DESIGN.md section 2, C11",
+        "note": "PARTIAL: rounding bounds are tested, not proved; rustfft = cyclic convolution is assumed (tested); the "
+                "FftFilter batching loop is tied by correspondence. low_pass with Blackman windows was asymmetric: fix: commit.",
+        "technique": "Lean 4 proof (induction over schedules and batches, ring algebra, real analysis via Mathlib) + bit-exact "
+                     "Float32 correspondence in three builds + f64 reference check",
     },
     "C12": {
         "text": "Lean 4 theorems: every plain sync block forwards each tag of its first input exactly once on the output position "
